@@ -1569,3 +1569,55 @@ class calculate_text_segments_space:
         idx = cur().ghost.get("exit_locals", {}).get("idx")
         t = a.text
         yield "cannot-display-only-a-character-wider-than-the-width", False if idx is None else both(0 <= idx, idx < tlen(t), W(t, idx + 1) - W(t, idx) > a.width)
+
+
+# ---- concrete cross-checks of the engine rules this file relies on (run with every check, as static obligations)
+
+def _xc_char_literal():
+    """`text[k] == " "` on a modelled str (Interp.equals: a character against a one-character literal) agrees with
+    CPython on a constant text, for every position."""
+    from pyvc.engine import Config, Explorer, State
+    from pyvc.interp import Interp
+    from pyvc.text import SConst
+    bad = []
+    for s_ in ("a b", " ", "\n ", "ab"):
+        for lit in (" ", "\n", "a", "ab"):
+            for k_ in range(len(s_)):
+                st = State(Explorer(Config()), [])
+                V._current.append(st)
+                try:
+                    r = Interp(None).equals(st, SConst(s_).get(k_), lit)
+                    want = s_[k_] == lit
+                    if isinstance(r, bool):
+                        ok = r == want
+                    else:
+                        ok = st._check(V._zb(r) if want else z3.Not(V._zb(r)), 2000)[0] == z3.sat and st._check(z3.Not(V._zb(r)) if want else V._zb(r), 2000)[0] == z3.unsat
+                    if not ok:
+                        bad.append((s_, lit, k_))
+                finally:
+                    V._current.pop()
+    return ("char-literal-comparison-agrees-with-cpython", not bad, f"mismatches {bad[:3]}" if bad else "agrees on the sample")
+
+
+def _xc_variant_colsums():
+    """Component prefix sums of lists of variant records (pyvc.seqs._tuple_cpsum / elt_comp, concatenation and slices)
+    agree with CPython's sum(seg[0] for seg in line[:k]) on concrete lines."""
+    bad = []
+    lines = [((2, None), (3, 0, 3), (0, 3)), ((5, 1, 6),), (), ((1, 2), (1, 2, b"x"), (4, None), (0, 9))]
+    for ln in lines:
+        f = Q.seq_cpsum(ln, 0)
+        for k_ in range(len(ln) + 1):
+            want = sum(s_[0] for s_ in ln[:k_])
+            if f(k_) != want:
+                bad.append((ln, k_))
+        for lo in range(len(ln) + 1):
+            part = Q.seq_concat(((7, None),), Q.seq_slice1(ln, lo, len(ln)))
+            g = Q.seq_cpsum(part, 0)
+            for k_ in range(len(part) + 1):
+                if g(k_) != sum(s_[0] for s_ in part[:k_]):
+                    bad.append((ln, lo, k_))
+    return ("variant-record-column-sums-agree-with-cpython", not bad, f"mismatches {bad[:3]}" if bad else "agrees on the sample")
+
+
+trim_line.static_checks = [_xc_variant_colsums]
+calculate_text_segments_space.static_checks = list(calculate_text_segments_space.static_checks) + [_xc_char_literal]
